@@ -193,10 +193,10 @@ func crossCase(t *vlib.T, n int, fam string, v int) {
 			}
 			continue
 		}
-		condBand(t, name, c, kinf, 10, 1.01)
+		condBand(t, name, c, kinf, 3, 1.01)
 	}
-	condBand(t, "mat.Cond(A,Inf)", mat.Cond(A.dense(), math.Inf(1)), kinf, 10, 1.01)
-	condBand(t, "mat.Cond(A,1)", mat.Cond(A.dense(), 1), k1, 10, 1.01)
+	condBand(t, "mat.Cond(A,Inf)", mat.Cond(A.dense(), math.Inf(1)), kinf, 3, 1.01)
+	condBand(t, "mat.Cond(A,1)", mat.Cond(A.dense(), 1), k1, 3, 1.01)
 	c2 := mat.Cond(A.dense(), 2)
 	if !relClose(c2, k2, 1e3*fn*eps*k2) {
 		t.Failf("mat.Cond(A,2) = %v, reference %v", c2, k2)
